@@ -18,6 +18,17 @@ func main() {
 	switch os.Args[1] {
 	case "func":
 		cmdFunc(os.Args[2:])
+	case "list":
+		e, err := engine.Load("/repo", "/verif", []string{"./..."})
+		if err != nil {
+			fmt.Println(err)
+			os.Exit(2)
+		}
+		for k := range e.Funcs {
+			if strings.Contains(k, os.Args[2]) {
+				fmt.Println(k, e.Funcs[k].Blocks != nil)
+			}
+		}
 	case "check":
 		os.Exit(cmdCheck(os.Args[2:]))
 	case "replay":
